@@ -79,6 +79,22 @@ type T struct{ A int }
 func Conv(i int) int { return i }
 `,
 		"tr/tr.go": trSrc,
+		"ext/a/conv/conv.go": `package conv
+
+func Itoa(i int) string { return "a" }
+`,
+		"ext/b/conv/conv.go": `package conv
+
+func Itoa(i int) string { return "b" }
+`,
+		"ext/dmodel/model.go": `package model
+
+type Status int
+`,
+		"ext/smodel/model.go": `package model
+
+type Status int
+`,
 		"ext/other/ext.go": `package ext
 
 // A second package whose base name is also "ext".
